@@ -263,6 +263,8 @@ def handleLine (st : State) (line : String) : State × String :=
       let good := (if k < ws.length then err && calls == k + 1 else !err) && hasPrefix acc full
       (st, verdict true "-" (if good then [] else ["C16"]) [])
     | _, _, _, _, _, _, _ => (st, "bad-pfault")
+  | ["bigidem", _pid, _len, ok] =>
+    (st, verdict true "-" (if ok == "1" then [] else ["C20", "C14"]) [])
   | ["big", _pid, _len, ok] =>
     -- a long conforming document (judged by the harness: returned unchanged by every entry point)
     (st, verdict true "-" (if ok == "1" then [] else ["C07", "C14", "C15"]) [])
